@@ -55,7 +55,32 @@ impl Prop for C10 {
 
     fn gen(ch: &mut Choices, tier: Tier) -> Option<Case> {
         let big = tier == Tier::Thorough;
-        let (lines, info) = if ch.chance(2, 3) {
+        let (lines, info) = if ch.chance(1, 6) {
+            // several findings at one place: a called function that is the first instruction of
+            // the program and the target of plain jumps from reachable code (its own body)
+            let mut lines = vec![label("helper")];
+            lines.extend(crate::gen::syn::plain_ins(ch, &[]));
+            let n_jumps = 1 + ch.below(3);
+            for k in 0..n_jumps {
+                let skip = format!("skip{k}");
+                lines.push(ins(ch.pick_str(&crate::gen::syn::BRANCH2), vec![r(crate::gen::syn::any_reg(ch)), Opd::L(skip.clone())]));
+                if k == 0 || ch.chance(1, 2) {
+                    lines.push(ins("jal", vec![Opd::L("helper".into())]));
+                }
+                lines.push(ins("j", vec![Opd::L("helper".into())]));
+                lines.push(Line::Label(skip));
+                lines.extend(crate::gen::syn::plain_ins(ch, &[]));
+            }
+            lines.push(ins("ret", vec![]));
+            (
+                lines,
+                WildInfo {
+                    n_funcs: 1,
+                    multi_label_entry: true,
+                    ..Default::default()
+                },
+            )
+        } else if ch.chance(2, 3) {
             let o = WildOpts {
                 max_funcs: if big { 4 } else { 3 },
                 max_blocks: 3,
